@@ -148,6 +148,38 @@ async def run_async(rec, cfg, given, calls, plan):
     return a, rec.n
 
 
+def lost_discovery_histories(rec, users, thorough, base_idx=900):
+    """Public-API histories (sync and async) of sessions created WITHOUT an engine id in which discovery datagrams are lost and
+    enter / refresh is retried before requests are made.  users: list of (auth, priv, key type).  Returns runs [(a, b, info)];
+    info carries api_history=True and is replayable by c13.replay()."""
+    hist = []
+    for ai, (auth, priv, kt) in enumerate(users):
+        for ci, calls in enumerate([["enter", "enter", "get", "get"], ["enter", "refresh", "get"], ["enter", "get", "get"]]):
+            nreq = sum(2 if c == "enter" else 1 for c in calls) + 1
+            for lost in ([0], [1], [0, 2]):
+                plan = [("reply", "A17", (i + 1) % len(CLOCKS)) for i in range(nreq)]
+                for k in lost:
+                    plan[k] = "drop"
+                hist.append((auth, priv, kt, calls, plan, base_idx + ai * 20 + ci * 5 + len(lost) + lost[0]))
+    if not thorough:
+        hist = [h for k, h in enumerate(hist) if (k + SEED) % 2 == 0]
+    runs = []
+
+    async def hist_async(items):
+        out = []
+        for (auth, priv, kt, calls, plan, i) in items:
+            cfg = make_cfg(auth, priv, kt, ENGINES["A17"], i)
+            a, b = await run_async(rec, cfg, False, calls, plan)
+            out.append((a, b, dict(kind="async", auth=auth, priv=priv, kt=kt, given=False, engine="A17", calls=calls, plan=plan, idx=i, api_history=True)))
+        return out
+    runs += asyncio.run(hist_async(hist[0::2]))
+    for (auth, priv, kt, calls, plan, i) in hist[1::2]:
+        cfg = make_cfg(auth, priv, kt, ENGINES["A17"], i)
+        a, b = run_sync(rec, cfg, False, calls, plan)
+        runs.append((a, b, dict(kind="sync", auth=auth, priv=priv, kt=kt, given=False, engine="A17", calls=calls, plan=plan, idx=i, api_history=True)))
+    return runs
+
+
 def run(tier):
     chk = Check("C13", tier)
     thorough = tier == "thorough"
